@@ -52,7 +52,8 @@ def stream(ctx, n, order, tts, positions=None, total=None):
             if rnd == 1:
                 # the same questions again after the unused variables were removed (levels
                 # renumbered, no collection): nothing remembered about a node may survive
-                if positions is None or undeclared:
+                # (on the first NON-constant function: a constant has nothing remembered)
+                if positions is None or undeclared or abs(u0) == 1:
                     break
                 M.op('undeclare', list(range(n, total)))
                 undeclared = True
@@ -167,6 +168,12 @@ def run(ctx):
     for order in rng.sample(gen.orders(4), 2 if q else 12):
         stream(ctx, 4, order, [rng.getrandbits(16) for _ in range(3 if q else 30)])
     # supports that skip levels in managers with many declared variables
+    for positions, total in (((1, 8), 10), ((2, 9), 12), ((7, 8), 9), ((0, 3, 16), 17)):
+        # (fixed cases: a deep level together with a shallow one, beyond the sizes at which the
+        # iteration order of a small Python set of levels happens to be increasing)
+        n = len(positions)
+        stream(ctx, n, tuple(range(n)), [T.var(0, n) & T.var(n - 1, n), rng.getrandbits(1 << n)],
+               positions=list(positions), total=total)
     for _ in range(6 if q else 60):
         n = rng.choice([2, 2, 3, 4])
         total = rng.choice([9, 10, 12, 17, 20, 33])
